@@ -143,7 +143,7 @@ func (e *Exec) globalCell(g *ssa.Global) *Cell {
 
 var initDeny = []string{"runtime", "internal/", "os", "syscall", "sync", "reflect", "time", "io/fs", "net", "unsafe", "testing", "flag", "log",
 	"math/rand", "crypto/rand", "crypto/internal/", "vendor/", "golang.org/x/sys", "unicode", "fmt", "path", "bufio", "context", "sort", "strings", "bytes",
-	"encoding/json", "encoding/base64", "encoding/hex", "encoding/pem", "encoding/asn1", "crypto/x509", "crypto/tls", "math/big", "crypto/elliptic",
+	"encoding/json", "encoding/base64", "encoding/hex", "encoding/pem", "encoding/asn1", "crypto/x509", "crypto/tls", "crypto/elliptic",
 	"crypto/ecdsa", "crypto/ecdh", "crypto/ed25519", "crypto/aes", "crypto/cipher", "crypto/des", "crypto/dsa", "hash/", "compress/", "iter", "slices", "maps", "cmp", "errors", "io", "strconv", "math", "math/bits", "encoding/binary", "crypto/subtle", "embed"}
 
 func (e *Exec) initAllowed(p *ssa.Package) bool {
@@ -151,6 +151,9 @@ func (e *Exec) initAllowed(p *ssa.Package) bool {
 		return true
 	}
 	path := p.Pkg.Path()
+	if path == "math/big" || path == "crypto/rsa" {
+		return true
+	}
 	for _, d := range initDeny {
 		if path == d || (strings.HasSuffix(d, "/") && strings.HasPrefix(path, d)) || strings.HasPrefix(path, d+"/") {
 			return false
